@@ -18,7 +18,7 @@ DESIGN_REF = "DESIGN.md section 6, C09"
 
 def correspondence(ctx):
     pipeline.numeric_campaign(ctx, ["C09"], ("susc",), 40, 500, max_modes_quick=4, max_modes_thorough=5,
-                              trunc=False, betas=(1e-3, 0.1, 1.0, 10.0, 100.0, 1000.0),
+                              trunc=False, betas=(1e-3, 0.1, 1.0, 10.0, 100.0, 1000.0), shifts=(5.0, -3.0, 200.0, -5000.0, 5000.0, 1e5),
                               nontrivial=lambda meta, s: meta["modes"] >= 2)
 
 
